@@ -2,6 +2,7 @@ package verifxfer
 
 import (
 	"bufio"
+	"os/signal"
 	"encoding/hex"
 	"encoding/json"
 	"fmt"
@@ -51,6 +52,7 @@ type childSpec struct {
 	Journal    string
 	Result     string
 	HashDelay  int
+	FsizeLimit int64 // >0: RLIMIT_FSIZE of the child: writes beyond this file offset fail (disk-full like fault)
 }
 
 type childResult struct {
@@ -91,6 +93,14 @@ func childMain(sp childSpec) int {
 	jf, err := os.OpenFile(sp.Journal, os.O_CREATE|os.O_WRONLY|os.O_APPEND, 0644)
 	if err != nil {
 		return 3
+	}
+	if sp.FsizeLimit > 0 {
+		signal.Ignore(syscall.SIGXFSZ)
+		lim := syscall.Rlimit{Cur: uint64(sp.FsizeLimit), Max: uint64(sp.FsizeLimit)}
+		if err := syscall.Setrlimit(syscall.RLIMIT_FSIZE, &lim); err != nil {
+			fmt.Println("setrlimit:", err)
+			return 3
+		}
 	}
 	root := filepath.Join(sp.Src, sp.Base)
 	x := xcase{Chunk: sp.Chunk, Streams: sp.Streams, Conns: 1, SendResume: true, RecvResume: true, NoRootDir: sp.NoRootDir, Mode: sp.Mode, QUICVis: sp.QUICVis}
